@@ -398,6 +398,63 @@ def random_counts_def(rng: random.Random) -> list:
     raise RuntimeError("could not generate a definition with counts")
 
 
+def random_start_block(rng: random.Random) -> list:
+    """Beyond fragment F: inside a loop, a fork branch that starts directly with a block (its
+    leading event removed), e.g. A; repeat{ N; xor{ X,break | fork{P}{Q}; J } }; D.  Used by C07
+    (loop-nesting invariants do not depend on block structure of the branches)."""
+    import copy
+    for _ in range(20000):
+        base = random_core(rng)
+        if not puml.has_kind(base, ("loop",)):
+            continue
+        ast = copy.deepcopy(base)
+        cands: list = []
+
+        def walk(seq: list, in_loop: bool) -> None:
+            for st in seq:
+                if st[0] in ("and", "or", "xor"):
+                    for b in st[1]:
+                        if in_loop and len(b) >= 2 and b[0][0] == "ev" and \
+                                b[1][0] in ("and", "or", "xor", "loop"):
+                            cands.append(b)
+                        walk(b, in_loop)
+                elif st[0] == "loop":
+                    walk(st[1], True)
+        walk(ast, False)
+        if not cands:
+            continue
+        b = rng.choice(cands)
+        del b[0]
+        return ast
+    raise RuntimeError("could not generate start-block definition")
+
+
+def break_xor_start_block_family() -> list[list]:
+    """Deterministic family (beyond F): a loop whose body holds a break XOR with a continuing
+    branch that starts directly with a block, so the event before the XOR both opens the
+    block and is the source of the break - over block kinds x break branches x tails."""
+    out = []
+    blocks = [("and", 2), ("and", 3), ("or", 2), ("or", 3), ("xor", 2), ("loop", 1)]
+    for kind, nb in blocks:
+        for nbreak in (1, 2):
+            for tail_in_branch in (True, False):
+                for tail_in_body in (True, False):
+                    if not tail_in_branch and not tail_in_body and kind != "xor":
+                        continue      # loop body would end in the fork (E1-like): not here
+                    nm = _Names()
+                    pre = [nm()]
+                    head = nm()
+                    if kind == "loop":
+                        blk: tuple = ("loop", [nm(), nm()])
+                    else:
+                        blk = (kind, [[nm()] + ([nm()] if i == 0 else []) for i in range(nb)])
+                    cont = [blk] + ([nm()] if tail_in_branch else [])
+                    brk = [[nm(), ("break",)] for _ in range(nbreak)]
+                    body = [head, ("xor", brk + [cont])] + ([nm()] if tail_in_body else [])
+                    out.append(pre + [("loop", body), nm()])
+    return out
+
+
 def random_same_end(rng: random.Random) -> list:
     for _ in range(2000):
         if rng.random() < 0.5:
